@@ -33,6 +33,35 @@ func main() {
 		})
 	}
 	ex.DefStrList("rewardCalls", calls)
+	// the conditions under which forceChange / IncreaseChainHeight reach those calls (every enclosing `if`)
+	var guards []string
+	for _, fn := range []string{"Arbiters.forceChange"} {
+		fd := f.MustFunc(fn)
+		var walk func(n ast.Node, conds []string)
+		walk = func(n ast.Node, conds []string) {
+			ast.Inspect(n, func(m ast.Node) bool {
+				switch x := m.(type) {
+				case *ast.IfStmt:
+					inner := append(append([]string{}, conds...), f.Src(x.Cond))
+					if x.Init != nil {
+						walk(x.Init, conds)
+					}
+					walk(x.Body, inner)
+					if x.Else != nil {
+						walk(x.Else, append(append([]string{}, conds...), "!("+f.Src(x.Cond)+")"))
+					}
+					return false
+				case *ast.CallExpr:
+					if strings.HasPrefix(f.Src(x), "a.clearingDPOSReward(") {
+						guards = append(guards, fd.Name.Name+": "+strings.Join(conds, " && "))
+					}
+				}
+				return true
+			})
+		}
+		walk(fd.Body, nil)
+	}
+	ex.DefStrList("clearingGuards", guards)
 	var stmts []string
 	for _, st := range f.MustFunc("Arbiters.clearingDPOSReward").Body.List {
 		s := f.Src(st)
